@@ -169,10 +169,13 @@ CHECKS = {
     'C12': dict(
         text='Lean 4 theorems over the work-list loop with an arbitrary pop schedule: result = reachable set (order independent), sound, complete for '
              'neighbour-connected touched sets, closed, terminating on every finite grid (instantiated for the geohash grid); multi = union; '
+             'on the integer lattice of a rational grid the connectivity and finiteness hypotheses are proved for axis-parallel rectangles, '
+             'segments of any slope and polylines, giving the unconditional statement flood = exactly the cells whose closed box meets the shape '
+             '(Props/C12Lattice: rect_flood_exact, seg_flood_exact, polyline_flood_exact); '
              'hash_collection = aggregation of exactly the shapes containing each cell, in order. Tied to NiemeyerHasher by measuring touches / '
              '_get_surrounding per shape, flooding them in the model and comparing with hash_shape; an exact integer-grid oracle independently '
              'checks that the cells are exactly those the shape touches.',
-        note='Not proved: connectedness of touched cells (geometry) and the per-cell predicate (C02); curved shapes are claimed for their polygon form, '
+        note='Not proved: connectedness of the cells touched by a filled polygon (proved for rectangles, segments and polylines only) and the per-cell predicate (C02); curved shapes are claimed for their polygon form, '
              'the analytic sliver is known finding F12b; H3 clauses are glue checks against the h3 library (np- streams).',
         technique='Lean 4 proof (invariant/refinement of the flood fill, termination measure, dict semantics) + source translator (the work-list loops of NiemeyerHasher, hash_shape, hash_coordinates and hash_collection regenerated as Lean and proved equal to the model) + measured-table correspondence + exact geometric oracle',
         design='§6 C12'),
